@@ -247,6 +247,7 @@ macro_rules! field_ops {
             });
             opx!(m, concat!($p, ".ark.serialized_size"), (a: ff), ru, a.serialized_size(Compress::Yes));
             opx!(m, concat!($p, ".ark.deser"), (b: by), rser_f, <F as CanonicalDeserialize>::deserialize_compressed(&b[..]));
+            opx!(m, concat!($p, ".ark.deser.drip"), (b: by), rser_f, <F as CanonicalDeserialize>::deserialize_compressed(crate::elems::Drip(&b[..])));
             opx!(m, concat!($p, ".ark.deser_uncompressed"), (b: by), rser_f, <F as CanonicalDeserialize>::deserialize_uncompressed(&b[..]));
             ser_flags!(m, $p,
                 "EmptyFlags" => EmptyFlags,
